@@ -153,6 +153,30 @@ func c15Run(c *fw.Ctx, kind, text string, optSets []int) {
 		if !sameTV(want, base.toks) {
 			c.Nontrivial()
 		}
+		// the same option set applied AGAIN between every look-ahead (HasNextToken) and the fetch
+		{
+			t := c15Tok[kind+"#again"]
+			if t == nil {
+				t = newTokenizer(kind)
+				c15Tok[kind+"#again"] = t
+			}
+			setOptions(t, o)
+			again := tokenizeWithNoopSetters(t, o, text, 1)
+			c.Eval(1)
+			if again.failed() || tokStr(again.toks) != tokStr(got.toks) {
+				delete(c15Tok, kind+"#again")
+				t = newTokenizer(kind) // a fresh instance decides
+				setOptions(t, o)
+				again = tokenizeWithNoopSetters(t, o, text, 1)
+			}
+			if again.failed() || tokStr(again.toks) != tokStr(got.toks) {
+				detail := tokShort(again.toks)
+				if again.failed() {
+					detail = again.failStr()
+				}
+				c.Violation("stream-changes-when-options-are-set-again-mid-stream:"+kind, "%s tokenizer, options %s, input %q: re-applying the same options between HasNextToken() and NextToken() gives %s, an undisturbed iteration gives %s", kind, optStr(o), text, detail, tokShort(got.toks))
+			}
+		}
 	}
 	c.Outcome(fmt.Sprintf("%s:base-tokens=%d", kind, len(base.toks)))
 }
